@@ -355,10 +355,11 @@ def run_shard(item):
         docs = ["{ a }", "query A { a } query B { nn }", "query A($v: Int) { b(x: $v) }", "query A($v: Int!) { b(x: $v) }",
                 "{ a } { nn }", "mutation A { a }", "{ a ", "query A { zzz }", "query A { zz1 a zz2 t { zz3 } }", "query A { a(q: 1) b(q: 2) }",
                 "query A { a } query B { nn } query C { a nn }", "query A { a } query B { nn } query C { a nn } query D { nn }",
-                "query A { a } query B { nn } query C { a } query D { nn } query E { a }", "query A { a } mutation B { a } query C { nn }"]
+                "query A { a } query B { nn } query C { a } query D { nn } query E { a }", "query A { a } mutation B { a } query C { nn }", "query None { a }", "query None { a } query null { nn }"]
         inputs = docs
         for q in docs:
-            for opn in (None, "", "A", "B", "Nope", "a", 0, 1, ("A",), b"A", 1.5):
+            # (... and names that look like a missing value once stringified by a transport: they are names like any other)
+            for opn in (None, "", "A", "B", "Nope", "a", 0, 1, ("A",), b"A", 1.5, "None", "null", "undefined", "False"):
                 for variables in (None, {}, {"v": 3}, {"v": "x"}, {"zz": 1}, [1], "str", 0, [["v", 1]]):
                     for c in COERCERS:
                         one(q, c, opn, variables, out, tag)
